@@ -297,22 +297,50 @@ def _tuplify(v, flip=True):
     return v
 
 
+WORLD = [None]          # the World of the program being run (set by Runner): lets a comparison build
+OPERAND_RES = [900]     # a second ROOT object, on a resource of its own, as its right-hand side
+
+
 def _operand(obj, other):
     """the right-hand side of a comparison, as plain data or - for unbuffered classes, chosen by a
     deterministic function of the value - as a SYNCED collection of the same family with that
-    content (C03: comparisons agree "for synced and for plain operands").  The synced operand is a
-    detached sibling built by _from_base; comparing loads its root, which changes nothing."""
+    content (C03: comparisons agree "for synced and for plain operands"; C02: every read reflects
+    the backend - also the read of the OTHER operand).  Two synced forms: a detached sibling built
+    by _from_base (comparing loads its root, which changes nothing), and another ROOT object on a
+    resource of its own which holds that content while the object's memory is stale - never loaded,
+    or loaded before an outside writer replaced the content."""
     import zlib
     if not isinstance(other, (list, dict)) or hasattr(type(obj), "_buffer"):
         return other
     if isinstance(other, list) != hasattr(obj, "append"):
         return other
-    if zlib.crc32(repr(other).encode()) % 3 != 0:
+    form = zlib.crc32(repr(other).encode()) % 3
+    if form == 2:
         return other
     try:
         obj._validate(other)
     except Exception:  # noqa: BLE001
         return other
+    if form == 1 and WORLD[0] is not None:
+        import copy
+        world = WORLD[0]
+        if type(obj) not in (world.fam.dict_cls, world.fam.list_cls):
+            return other
+        res = OPERAND_RES[0]
+        OPERAND_RES[0] += 1
+        try:
+            if zlib.crc32(repr(other).encode()) % 2:
+                # loaded once, then the content was replaced from outside
+                world.write(res, {"old": 1} if isinstance(other, dict) else [0, "old"])
+                x = world.open(isinstance(other, dict), res)
+                x()
+                world.write(res, copy.deepcopy(other))
+            else:
+                world.write(res, copy.deepcopy(other))
+                x = world.open(isinstance(other, dict), res)
+            return x
+        except Exception:  # noqa: BLE001
+            return other
     return obj._from_base(data=other, parent=obj)
 
 
@@ -362,6 +390,8 @@ class Runner:
         self.handles = []     # registered child objects (kept alive)
         self.hid = {}         # id(obj) -> handle number
         self.known_res = set()
+        WORLD[0] = world
+        OPERAND_RES[0] = 900
 
     # ---- rendering
     def _plain(self, obj):
